@@ -246,7 +246,71 @@ def cmd_accepted():
     return sorted(_accepted_packages)
 
 
+# ---- notebook location: the code lives in IPython cells -------------------------------------------------
+
+def cmd_ipy_init(root, store=None):
+    """an in-process IPython shell: functions and classes defined in cells live in __main__"""
+    import dds
+    from IPython.core.interactiveshell import InteractiveShell
+
+    if root not in sys.path:
+        sys.path.insert(0, root)
+    vl = os.path.join(root, "vlog.py")
+    if not os.path.exists(vl):
+        with open(vl, "w") as f:
+            f.write(VLOG_SRC)
+    importlib.invalidate_caches()
+    STATE["root"] = root
+    STATE["modules"] = []
+    STATE["shell"] = InteractiveShell.instance()
+    if store is not None:
+        cmd_set_store(**store)
+    return True
+
+
+def cmd_ipy_cell(src):
+    sh = STATE["shell"]
+    r = sh.run_cell(src, store_history=True, silent=True)
+    err = r.error_before_exec or r.error_in_exec
+    if err is not None:
+        raise err
+    return True
+
+
+def cmd_ipy_eval(func, style="eval"):
+    """evaluate a function defined in a cell, through a cell (as a user would)"""
+    import dds
+    import vlog
+
+    sh = STATE["shell"]
+    cap = STATE.get("cap")
+    if cap is not None:
+        cap.reset_log()
+    vlog.take()
+    out = {"value": None, "exc": None}
+    src = f"__vf_result = dds.eval({func})" if style == "eval" else f"__vf_result = {func}()"
+    r = sh.run_cell(src, store_history=True, silent=True)
+    err = r.error_before_exec or r.error_in_exec
+    if err is not None:
+        out["exc"] = _exc_info(err)
+        out["exc"]["same_object"] = False
+        out["exc"]["tb_tail"] = "".join(traceback.format_exception(type(err), err, err.__traceback__))[-1500:]
+    else:
+        out["value"] = sh.user_ns.get("__vf_result")
+    out["log"] = vlog.take()
+    out["ctx_clean"] = dds._api._eval_ctx is None
+    if cap is not None:
+        out["synced"] = [dict(d) for d in cap.synced]
+        out["sigs"] = cap.last_sigs()
+        out["stored"] = list(cap.stored)
+        out["fetched"] = list(cap.fetched)
+    return out
+
+
 COMMANDS = {
+    "ipy_init": cmd_ipy_init,
+    "ipy_cell": cmd_ipy_cell,
+    "ipy_eval": cmd_ipy_eval,
     "init": cmd_init,
     "set_store": cmd_set_store,
     "eval": cmd_eval,
